@@ -462,6 +462,17 @@ func C11(r *vf.Run) {
 				if n%4096 == 0 || n == total {
 					k = 512
 				}
+				if n%9000 == 2000 {
+					// a copy of the bus taken by value (a Bus is a value; a debugger or a save-state keeps one)
+					// is re-wired over the console's own windows: the System's bus is not the copy
+					cp := h.s.Bus
+					for j := 0; j < 6; j++ {
+						a := addrs[g.Intn(len(addrs))] &^ 15
+						_ = cp.Attach(&fakeMem{id: -n}, "on-the-copy", a, a|15)
+					}
+					cells["long:bus-copy-rewired"]++
+					k = 512
+				}
 				if n%9000 == 4500 {
 					// the host overlays a few segments of the console's own windows with its device (a patch
 					// area, a watch region) and later re-creates the emulator: CreateEmulator builds the
